@@ -500,8 +500,11 @@ def _count_disagreement(get_num_points, m):
             kept = n if m is None else sum(1 for v in combo if bool(v) == bool(m))
 
             class Me:
+                # the representation of a data set of n points with this mask (invariants of __init__ / set_mask)
                 _mask = mask
                 _num_points = n
+                _impedances = numpy.zeros(n, dtype=complex)
+                _frequencies = numpy.logspace(3, 0, n)
 
                 def get_mask(self):
                     return dict(mask)
@@ -511,6 +514,9 @@ def _count_disagreement(get_num_points, m):
                 get_frequencies = get_impedances
             try:
                 got = get_num_points(Me(), masked=m)
+            except (AttributeError, NameError) as e:
+                # the method uses a part of the data set this stand-in does not have: nothing can be concluded
+                raise O.Unsupported(f"get_num_points left the modelled representation of a data set: {type(e).__name__}: {e}")
             except Exception as e:      # noqa: BLE001
                 got = f"{type(e).__name__}: {e}"
             if isinstance(got, tuple) and got[0] == "len":
@@ -577,11 +583,16 @@ def target_derived_views():
                 # the count is computed some other way: the symbolic argument does not apply, so the real method is run on every
                 # mask of up to three points whose flags are of the two accepted kinds (bool, numpy.bool_); a disagreement with
                 # the number of points the view keeps is a real input, agreement everywhere leaves the obligation undecided
-                bad = _count_disagreement(ns["get_num_points"], m)
+                stub_len, ns["len"] = ns["len"], len        # (the enumeration runs on concrete values: the real len)
+                try:
+                    bad = _count_disagreement(ns["get_num_points"], m)
+                finally:
+                    ns["len"] = stub_len
                 if bad is None:
-                    raise O.Unsupported("get_num_points does not take the length of get_impedances(masked); its own counting agrees on every mask of up to three points, which proves nothing")
-                ob = sess.check("post", [], z3.BoolVal(False), 0, label=f"get_num_points == len(get_impedances(masked)){tag}")
-                ob.detail = f"witness: mask={bad[0]!r} masked={m}: get_num_points gives {bad[1]}, the view keeps {bad[2]} points"
+                    sess.unsupported(f"get_num_points does not take the length of get_impedances(masked); its own counting agrees on every mask of up to three points, which proves nothing{tag}")
+                else:
+                    ob = sess.check("post", [], z3.BoolVal(False), 0, label=f"get_num_points == len(get_impedances(masked)){tag}")
+                    ob.detail = f"witness: mask={bad[0]!r} masked={m}: get_num_points gives {bad[1]}, the view keeps {bad[2]} points"
             calls.clear()
             re_, nim = ns["get_nyquist_data"](Me(), masked=m)
             DF.eq_check(sess, f"get_nyquist_data[0] == Re Z of the requested subset{tag}", re_, Zm.real)
